@@ -9,6 +9,7 @@ import (
 	"runtime"
 	"strings"
 	"sync"
+	"sync/atomic"
 	"time"
 
 	"github.com/fatedier/frp/pkg/msg"
@@ -35,6 +36,8 @@ type kase struct {
 	sameGrp bool
 	taken   []int
 	variant []string
+
+	keyOverride string // while set, ledger and traffic findings are reported under "<keyOverride>-<kind>"
 }
 
 var s1Paths = []string{"close", "drop-after-reply", "drop-before-reply", "drop-traffic",
@@ -66,6 +69,10 @@ func allCombos() []combo {
 			out = append(out, combo{e, k, "login-cut"})
 		}
 	}
+	// a udp proxy closed while its work-connection fetch is in progress (forced both ways)
+	for _, e := range []int{1, 2} {
+		out = append(out, combo{e, "udp", "udp-fetch-close"})
+	}
 	// groups with several live members and a stranger whose join is refused at the group check
 	for _, e := range []int{1, 2} {
 		for _, k := range []string{"tcp-group", "http-group", "tcpmux-group"} {
@@ -73,6 +80,22 @@ func allCombos() []combo {
 		}
 	}
 	return out
+}
+
+// crossCombos: session A closes p, session W registers the identical p, then A's session ends. These run before
+// everything else, and the kinds whose Close is idempotent first: if a stale proxy is closed a second time the other
+// kinds panic (close of a closed channel), which ends the process and with it every monitor.
+func crossCombos() (out []combo, nSafe int) {
+	safe := []string{"tcp", "udp", "http", "stcp", "sudp", "xtcp", "http-group"}
+	rest := []string{"https", "tcpmux", "tcp-group", "tcpmux-group"}
+	for _, ks := range [][]string{safe, rest} {
+		for _, k := range ks {
+			for _, e := range []int{1, 2} {
+				out = append(out, combo{e, k, "cross-session-reuse"})
+			}
+		}
+	}
+	return out, 2 * len(safe)
 }
 
 func (k *kase) actor(id, runID string, pool int, autoWork bool) *actor {
@@ -170,7 +193,12 @@ func (k *kase) inconclusive(why string) {
 	run.Inconclusive(why)
 }
 
-func (k *kase) key(what string) string { return fmt.Sprintf("%s-%s-%s", what, k.kind, k.path) }
+func (k *kase) key(what string) string {
+	if k.keyOverride != "" {
+		return k.keyOverride + "-" + k.kind
+	}
+	return fmt.Sprintf("%s-%s-%s", what, k.kind, k.path)
+}
 
 // owners for sid lookups of xtcp probes
 func (k *kase) owners() []*actor { return k.actors }
@@ -336,7 +364,10 @@ func runCase(c *h.Case, e *env, kind, path string) {
 	if k.rng.Intn(3) == 0 {
 		pool = 1 + k.rng.Intn(2)
 	}
-	k.V = k.actor("V", "", pool, path != "pool")
+	if path == "udp-fetch-close" {
+		pool = 0
+	}
+	k.V = k.actor("V", "", pool, path != "pool" && path != "udp-fetch-close")
 	k.B = k.actor("B", "", 0, true)
 	k.P = k.actor("P", "", 0, true)
 	if k.V == nil || k.B == nil || k.P == nil {
@@ -395,6 +426,10 @@ func runCase(c *h.Case, e *env, kind, path string) {
 			k.pathPool()
 		case "login-cut":
 			k.pathLoginCut()
+		case "udp-fetch-close":
+			k.pathUDPFetchClose()
+		case "cross-session-reuse":
+			k.pathCrossSessionReuse()
 		default:
 			k.pathDrop()
 		}
@@ -1408,4 +1443,185 @@ func (k *kase) pathLoginCut() {
 	}
 	k.expectServed("after the cut in the login window (same run id)", k.vs, k.servers(W)...)
 	k.checkLedger("re-registered after the cut in the login window", append(k.liveB(), live{k.vs, W}))
+}
+
+// ---------------------------------------------------------------------------------------------
+// a udp proxy is closed while it fetches its work connection; the connection arrives for the closed proxy
+
+func (k *kase) pathUDPFetchClose() {
+	mirror := k.c.Idx%2 == 0 // both forced orders in every tier (the enumeration visits this path on even and odd indices)
+	k.variant = append(k.variant, fmt.Sprintf("mirror%v", mirror))
+	point := "server.control.getWorkConn.beforeTake"
+	var fetches atomic.Int32
+	var g *h.Gate
+	if mirror {
+		// the fetch is parked right before it looks into the pool; the connection is pooled and the proxy closed meanwhile
+		g = h.NewGate(point, k.V.rid, 1)
+		defer g.Release()
+	} else {
+		rm := h.OnHook(point, k.V.rid, func(string, []any) { fetches.Add(1) })
+		defer rm()
+	}
+	if !k.mustRegister("setup", k.V, k.vs, "") {
+		return
+	}
+	var wc *h.WorkConn
+	var err error
+	closeIt := func() bool {
+		if e := k.V.p.CloseProxy(k.vs.Name); e != nil || k.V.barrier() != nil {
+			k.inconclusive("close barrier missing")
+			return false
+		}
+		run.Count("closes", 1)
+		return true
+	}
+	if mirror {
+		if !g.WaitArrived(15 * time.Second) {
+			k.inconclusive("work connection fetch gate not reached")
+			return
+		}
+		if wc, err = k.V.p.OpenWorkConn(); err != nil {
+			k.inconclusive("work connection could not be opened")
+			return
+		}
+		pooled := h.Eventually(10*time.Second, func() bool {
+			for _, ss := range k.e.srv.Snapshot().Sessions {
+				if ss.RunID == k.V.rid {
+					return ss.PoolLen >= 1
+				}
+			}
+			return false
+		})
+		if !pooled {
+			k.inconclusive("offered work connection did not reach the pool")
+			return
+		}
+		if !closeIt() {
+			return
+		}
+		g.Release()
+	} else {
+		// the pool is empty: the fetch asks the client and waits; the client answers only after the close
+		asked := h.Eventually(15*time.Second, func() bool { return fetches.Load() > 0 && k.V.p.ReqWorkConnSeen.Load() > 0 })
+		if !asked {
+			k.inconclusive("the udp proxy did not ask for a work connection")
+			return
+		}
+		if !closeIt() {
+			return
+		}
+		if wc, err = k.V.p.OpenWorkConn(); err != nil {
+			k.inconclusive("work connection could not be opened")
+			return
+		}
+	}
+	run.Count("udp_fetch_close_forced", 1)
+	// the server must close the connection it took for the closed proxy (bounded progress, far below the proxy's 60 s read deadline)
+	st, rerr := wc.ReadStart(10 * time.Second)
+	k.c.Ev("late-work-conn", "start", st, "err", fmt.Sprint(rerr))
+	taken := st != nil
+	open := false
+	if taken {
+		_ = wc.Conn.SetReadDeadline(time.Now().Add(10 * time.Second))
+		buf := make([]byte, 4096)
+		var e error
+		for e == nil {
+			_, e = wc.Conn.Read(buf)
+		}
+		ne, isNet := e.(net.Error)
+		open = isNet && ne.Timeout()
+	} else if ne, isNet := rerr.(net.Error); isNet && ne.Timeout() {
+		// never handed out: it sits in the pool of the live session (the fetch had given up) - legal
+		k.inconclusive("late work connection stayed pooled (fetch had given up)")
+		wc.Conn.Close()
+		return
+	}
+	if open {
+		k.c.Violation("work-connection-fetched-during-close-left-open-udp",
+			"udp proxy %s was closed (CloseProxy acknowledged) while it was fetching its work connection (%s); the connection it then took (StartWorkConn for %q) is still open 10 s later",
+			k.vs.Name, map[bool]string{true: "fetch parked before the pool lookup, connection pooled meanwhile", false: "empty pool, client answered ReqWorkConn after the close"}[mirror], st.ProxyName)
+		wc.Conn.Close()
+		return
+	}
+	wc.Conn.Close()
+	if !k.checkLedger("after the close during the fetch", k.liveB()) {
+		return
+	}
+	if !k.mustRegister("after the close during the fetch", k.V, k.vs, "reregistration-after-close-refused") {
+		return
+	}
+	if !closeIt() {
+		return
+	}
+	k.checkLedger("closed again", k.liveB())
+}
+
+// ---------------------------------------------------------------------------------------------
+// session A closes p; session W registers the identical p; then A's session ends: W's p must be untouched
+
+func (k *kase) pathCrossSessionReuse() {
+	ends := []string{"drop", "relogin"}
+	if k.e.heartbeat > 0 {
+		ends = append(ends, "heartbeat")
+	}
+	end := ends[k.rng.Intn(len(ends))]
+	k.variant = append(k.variant, "end-"+end)
+	if !k.mustRegister("setup", k.V, k.vs, "") {
+		return
+	}
+	k.expectServed("first owner", k.vs, k.servers(k.V)...)
+	if err := k.V.p.CloseProxy(k.vs.Name); err != nil || k.V.barrier() != nil {
+		k.inconclusive("close barrier missing")
+		return
+	}
+	run.Count("closes", 1)
+	// (a mismatch here is reported, and the sequence goes on to its consequence for the second owner)
+	k.checkLedger("first owner closed the proxy", k.liveB())
+	W := k.actor("W", "", 0, true)
+	if W == nil {
+		k.inconclusive("login failed")
+		return
+	}
+	W.keepAlive()
+	if !k.mustRegister("second owner", W, k.vs, "reregistration-on-new-session-refused") {
+		return
+	}
+	lv := append(k.liveB(), live{k.vs, W})
+	k.expectServed("second owner", k.vs, k.servers(W)...)
+	k.checkLedger("second owner registered", lv)
+	// the first owner's session ends; it no longer owns anything
+	switch end {
+	case "drop":
+		k.V.close()
+	case "heartbeat":
+		k.V.stopKeepAlive()
+		if !k.V.p.WaitClosed(time.Duration(3*k.e.heartbeat+15) * time.Second) {
+			k.c.Violation(k.key("heartbeat-timeout-session-not-closed"), "session without heartbeats still connected (heartbeatTimeout %d s)", k.e.heartbeat)
+			return
+		}
+		run.Count("heartbeat_timeouts", 1)
+	case "relogin":
+		k.V.stopKeepAlive()
+		X := k.actor("X", k.V.rid, 0, true)
+		if X == nil {
+			k.inconclusive("re-login failed")
+			return
+		}
+		X.keepAlive()
+		run.Count("relogins", 1)
+		if !k.V.p.WaitClosed(15 * time.Second) {
+			k.c.Violation(k.key("replaced-control-connection-left-open"), "replaced session's control connection is still open 15 s after the re-login was acknowledged")
+			return
+		}
+	}
+	run.Count("session_drops", 1)
+	if end != "relogin" && !k.sessionGone("first owner's session end", k.V) {
+		return
+	}
+	k.keyOverride = "other-session-proxy-removed-by-ended-session"
+	defer func() { k.keyOverride = "" }()
+	if !k.checkLedger("after the first owner's session ended ("+end+")", lv) {
+		return
+	}
+	k.expectServed("after the first owner's session ended ("+end+")", k.vs, k.servers(W)...)
 }
